@@ -5,7 +5,7 @@
     default location 0 if the stack is empty.  The compiled parsers of BOTH back ends are compared
     with this rule (incl. @L/@R probes) by the check. *)
 From Coq Require Import List ZArith.
-From LV Require Import LR.Driver LR.Spans.
+From LV Require Import LR.Driver LR.Validator LR.Spans LR.SpanTree.
 Import ListNotations.
 
 Theorem C06_reduce_span_rule : forall A orc p la st s' t lo hi below ev,
@@ -27,3 +27,27 @@ Theorem C06_shift_keeps_token_span : forall A orc fuel k i s m' s',
   exists target, stk s' = (target, Leaf k, tk_lo k, tk_hi k) :: stk s.
 Proof. exact shift_span_rule. Qed.
 Print Assumptions C06_shift_keeps_token_span.
+
+(** the whole tree.  [SpL kids b a lo hi evs] is the documented rule stated once for a sequence of
+    subtrees (LR/SpanTree.v): tokens keep the lexer's span; a node with children spans from the start
+    of the first to the end of the last; a node without children sits at the start of the next input
+    token, or at the end of the input at the end of the symbol to its left (b, the default 0 if none);
+    evs lists the spans of all nodes in post-order.  For ANY tables without recovery the Act events
+    of an accepting run (the (lo, hi) each user action is handed for its node) are those spans. *)
+Theorem C06_whole_tree_spans : forall A, uses_recovery A = false -> forall orc fuel input p k ks s,
+  drive A orc fuel input = (ROk (Node p (k :: ks)), s) ->
+  exists evs_b evs_k b lo hi, acts3 (trace s) = evs_b ++ evs_k /\ SpL (k :: ks) b None lo hi evs_k /\
+     (length (k :: ks) = length (stk s) -> b = 0%Z /\ evs_b = []).
+Proof. exact whole_tree_spans. Qed.
+Print Assumptions C06_whole_tree_spans.
+
+(* on validated tables: all Act events of the run are the rule's spans of all nodes below the root,
+   nothing to the left of the tree (default location 0), end of input to its right *)
+Theorem C06_whole_tree_spans_on_validated_tables : forall A C,
+  shape A C = true -> exact A C = true -> uses_recovery A = false ->
+  forall orc fuel w p k ks s,
+  Forall (fun k => match tk_idx k with Some t => t < tn_names A | None => True end) w ->
+  drive A orc fuel (map IOk w) = (ROk (Node p (k :: ks)), s) ->
+  exists lo hi, SpL (k :: ks) 0%Z None lo hi (acts3 (trace s)).
+Proof. exact whole_tree_spans_valid. Qed.
+Print Assumptions C06_whole_tree_spans_on_validated_tables.
